@@ -7,8 +7,8 @@ from vf import Inconclusive, parallel, require_clean, validate_traces, vfj_lines
 CLAIM = {
     "text": "ExprSyntax.tla gives the documented template syntax as a printer over annotated trees Lit | Grp | Key | Call(f, args) "
             "(every admissible choice of 1-2 blanks from {space, tab} between arguments, blanks inside the braces, optional quotes, "
-            "mandatory quotes for empty or blank-containing arguments, nested calls in any argument position, escaped literal text around "
-            "statements) and a parse model that transcribes the three cooperating scanners of pkg/expressions (Compile, "
+            "mandatory quotes for empty or blank-containing arguments, nested calls in any argument position, quoted sub-templates such as \"{0}\", escaped literal "
+            "text around statements) and a parse model that transcribes the three cooperating scanners of pkg/expressions (Compile, "
             "splitTokenizedArguments, stageSimpleVariable). TLC proves on the model that parsing any printed tree (depth <= 3, <= 3 arguments, "
             "all variants) returns the tree, that the escaped rendering of every string over {a { } \\ \" space n t \\n \\t \\r} evaluates to the "
             "string, and that a dropped closing brace, an empty statement and an unregistered function yield the classes unterminated, empty, "
@@ -68,7 +68,7 @@ def _check(run):
 
     # ---- B3 (laws on the model) and the B1 generator explore the same case space; in the quick tier one TLC run does both
     def gen():
-        r = run.tlc("ExprSyntax_Gen", _cfg("LawOK Dump", False), workers=4, timeout=3000,
+        r = run.tlc("ExprSyntax_Gen", _cfg("LawOK Dump", False), workers=4 if quick else 2, timeout=3000,
                     label="ExprSyntax_Gen (laws + vectors)")
         require_clean(run, r, "ExprSyntax_Gen (laws on the quick case space)")
         n = 0
@@ -87,13 +87,13 @@ def _check(run):
         r = run.tlc("ExprSyntax_MC", _cfg("LawOK", True), workers=6, timeout=3000, xmx="8g",
                     label="ExprSyntax_MC laws Thorough=TRUE")
         require_clean(run, r, "ExprSyntax_MC (laws)")
-        if r.distinct < 1000000:
+        if r.distinct < 400000:
             raise Inconclusive("law check explored only %d cases" % r.distinct)
         return r
 
     # ---- B2: random trees / malformations / wild edits on the real compiler, validated by TLC
     def b2():
-        run.drv(["trace", "-out", trace, "-n", 16000 if quick else 400000])
+        run.drv(["trace", "-out", trace, "-n", 12000 if quick else 300000])
         lines = open(trace).read().splitlines()
         nreal = len(lines)
         # canaries: corrupted copies of real records must be rejected (guards against a vacuous validation)
